@@ -363,7 +363,14 @@ pub uninterp spec fn parse_blocks_spec(line_changes: Map<PathBuf, Vec<LineChange
 pub uninterp spec fn list_report_spec(blocks: Map<PathBuf, FileBlocks>) -> Map<PathBuf, Vec<serde_json::Value>>;
 /// writing this report to stdout succeeds (`serde_json::to_writer_pretty(stdout, ..)` returns `Ok`). Uninterpreted:
 /// the only way to learn it is to make the call, so an `Ok` result that claims it is evidence of the call.
-pub uninterp spec fn stdout_write_ok_spec(report: Map<PathBuf, Vec<serde_json::Value>>) -> bool;
+pub uninterp spec fn stdout_write_ok_spec(report: Map<String, Vec<serde_json::Value>>) -> bool;
+// INTERIM (being replaced by unit V8p of group report): `with_printable_paths` of src/main.rs as a trusted stub
+pub uninterp spec fn printable_spec(m: Map<PathBuf, Vec<serde_json::Value>>) -> Map<String, Vec<serde_json::Value>>;
+#[verifier::external_body]
+pub fn with_printable_paths(report: HashMap<PathBuf, Vec<serde_json::Value>>) -> (r: HashMap<String, Vec<serde_json::Value>>)
+    ensures r@ == printable_spec(report@)
+{ unimplemented!() }
+
 /// the constant `validators::DETECTOR_FACTORIES`
 pub uninterp spec fn detector_table() -> Seq<(&'static str, DetectorFactory)>;
 
@@ -626,11 +633,11 @@ pub mod serde_json {
     /// Call-site obligations (M1, C11): only under `list`, only after the command line was accepted,
     /// and what is written is the report of the run's blocks.
     #[verifier::external_body]
-    pub fn to_writer_pretty(w: std::io::Stdout, v: &HashMap<PathBuf, Vec<Value>>) -> (r: Result<()>)
+    pub fn to_writer_pretty(w: std::io::Stdout, v: &HashMap<String, Vec<Value>>) -> (r: Result<()>)
         requires
             !cli_rejected(), // [M1.post.invalid_flags_rejected_before_listing]
             is_list_command(process_args()), // [M1.post.report_written_only_for_list]
-            Some(v@) == expected_list_report(), // [M1.post.list_writes_report_of_the_runs_blocks]
+            expected_list_report() matches Some(e) && v@ == printable_spec(e), // [M1.post.list_writes_report_of_the_runs_blocks]
         ensures
             r is Ok <==> stdout_write_ok_spec(v@),
     { unimplemented!() }
@@ -776,7 +783,7 @@ pub mod validators {
         r is Ok ==> grammar_table() is Some && expected_allow() is Some && expected_ignore() is Some && expected_root() is Some // [M1.post.every_failure_propagates]
             && expected_line_changes() is Some && expected_blocks() is Some,
         // C11: `list`: exit status 0 means the report of the run's blocks was written to stdout
-        r is Ok && is_list_command(process_args()) ==> stdout_write_ok_spec(expected_list_report().unwrap()), // [M1.post.list_ok_means_report_written]
+        r is Ok && is_list_command(process_args()) ==> stdout_write_ok_spec(printable_spec(expected_list_report().unwrap())), // [M1.post.list_ok_means_report_written]
         // C11 / C14: otherwise exit status 0 means: the validators selected by the flags (V10's contract, for the
         // run's blocks and exactly the --disable / --enable sets) were run (V8g) and reported no error-severity diagnostic
         r is Ok && !is_list_command(process_args()) ==> exists|ctx: ValidationContext, s: Vec<Box<dyn ValidatorSync>>, a: Vec<Box<dyn ValidatorAsync>>, en: Set<&'static str>, dis: Set<&'static str>| // [M1.post.ok_means_selected_validators_ran_clean]
